@@ -56,12 +56,22 @@ def gen_case(streams, tier):
     script = gen.gen_script(g, cfg)
     ncyc = streams['inputs'].randint(2, 8)
     seq = [g.choice(PASSES) for _ in range(g.choice([1, 1, 2, 3, 4]))]
+    stage = None
+    if kind == 'word' and g.random() < 0.25:
+        # optimize(update_working_block=False) is asked for a copy of the design, the design
+        # is extended on the same Block, and the passes then run on the design as it is now
+        s2, st = gen.add_late_cone(g, script)
+        if s2 is not None:
+            script, stage = s2, st
+            if g.random() < 0.7:
+                seq[0] = 'optimize_nonupdating'
     return {
         'prop': ID, 'kind': kind, 'script': script, 'passes': seq,
         'cycles': gen.gen_inputs(streams['inputs'], script, ncyc + 6),
         'ncyc': ncyc,
         'state_seed': g.getrandbits(32),
         'wb': g.choice(['dut', 'other']),
+        'stage': stage,
         'sched': world.gen_sched(streams, with_iter=False),
     }
 
@@ -120,7 +130,17 @@ def run(case, res):
     script = case['script']
     sched = case['sched']
     world.setup_world(sched)
-    b = world.build_dut(script, sched)
+    stage = None
+    if case.get('stage'):
+        def early_optimize(built):
+            try:
+                with transforms.quiet():
+                    pyrtl.optimize(update_working_block=False, block=built.block)
+                res.faults.hit('optimized_copy_before_extension')
+            except (pyrtl.PyrtlError, pyrtl.PyrtlInternalError):
+                res.probes.hit('early_optimize_refused')
+        stage = dict(case['stage'], hook=early_optimize)
+    b = world.build_dut(script, sched, stage=stage)
     try:
         with transforms.quiet():
             blk = make_kind(case['kind'], b.block)
@@ -268,6 +288,12 @@ def candidates(case):
         c['script'] = s
         c['cycles'] = shrink.remap_cycles(case['cycles'], s)
         s.pop('_memremap', None)
+        if case.get('stage'):
+            c['stage'] = gen.restage(s)
+        yield c
+    if case.get('stage'):
+        c = copy.deepcopy(case)
+        c['stage'] = None
         yield c
     for t in shrink.simplify_values(case['cycles'][:case['ncyc']]):
         c = copy.deepcopy(case)
